@@ -272,6 +272,60 @@ fn case_old_snapshot_across_compaction(commits: u64, compacted: bool, out: &mut 
     }
 }
 
+/// Index lookups belong to what a snapshot shows: S = snapshot; commit a node whose indexed
+/// property has a new value (and one that shares an old value); optionally compact; the lookups
+/// through S must return what they returned before.
+fn case_index_lookup_old_snapshot(commits: u64, compact_after: bool, out: &mut CaseOut) {
+    let dir = ScratchDir::new("c03x");
+    let Ok(db) = Db::open(dir.db_base()) else {
+        out.inconclusive("open");
+        return;
+    };
+    if db.create_index("M", "t").is_err() {
+        out.inconclusive("create_index");
+        return;
+    }
+    for k in 0..commits {
+        if marker_tx(&db, k).is_err() {
+            out.inconclusive("setup-commit");
+            return;
+        }
+    }
+    let idx = vec![("M".to_string(), "t".to_string())];
+    let values: Vec<ndb_core::PropertyValue> = (0..commits as i64 + 3).map(ndb_core::PropertyValue::Int).collect();
+    let snap = db.snapshot();
+    let before = crate::common::dump::index_facts(&snap, &idx, &values);
+    // a new value of the indexed property, and an update that gives an old node a different value
+    let later = (|| -> Result<(), String> {
+        marker_tx(&db, commits)?;
+        let mut txn = db.begin_write();
+        txn.set_node_property(0, "t".into(), ndb_core::PropertyValue::Int(commits as i64 + 1)).map_err(|e| e.to_string())?;
+        txn.commit().map_err(|e| e.to_string())?;
+        if compact_after {
+            db.compact().map_err(|e| e.to_string())?;
+        }
+        Ok(())
+    })();
+    if later.is_err() {
+        out.inconclusive("writer-failed");
+        return;
+    }
+    let after = crate::common::dump::index_facts(&snap, &idx, &values);
+    out.evaluations += 1;
+    out.count("index_lookups_through_an_old_snapshot", values.len() as u64);
+    out.cell(format!("index-lookup-through-old-snapshot:compact={compact_after}"));
+    let df = diff_facts(&before, &after, usize::MAX);
+    if !df.is_empty() {
+        out.violations.push(viol(
+            "snapshot-changed-index-lookup",
+            if compact_after { "sequential:commit-then-compact" } else { "sequential:commit" },
+            "lookup_index through a snapshot returns nodes of transactions committed after the snapshot was taken (or no longer returns what it returned)".into(),
+            &df,
+            json!({"steps": ["create_index(M, t)", "n marker commits", "S = snapshot(); L0 = S.lookup_index(M, t, v) for v in 0..n+3", "commit a node with t = n; commit t = n+1 on node 0", "L1 = the same lookups through S"]}),
+        ));
+    }
+}
+
 /// Free-running stress: one writer (marker commits, compaction every n), several readers holding
 /// snapshots over time. Every dump must equal the content after exactly j commits, with
 /// acked-before-call <= j <= started-before-return, and must not change on re-read.
@@ -458,6 +512,7 @@ pub fn main(args: &Args) -> Report {
     for i in 0..reps {
         for compacted in [false, true] {
             case_old_snapshot_across_compaction(3 + i as u64 % 4, compacted, &mut out);
+            case_index_lookup_old_snapshot(2 + i as u64 % 4, compacted, &mut out);
         }
     }
     let secs = args.budget_s(15, 600);
